@@ -20,6 +20,9 @@ pub enum C17Case {
     /// 9 vcs 10 packager 11 group 12 cookie 13 build_host 14 scriptlet body 15 changelog 16 dependency
     /// 17 user 18 group-owner 19 symlink target
     Meta { field: u8, value: String },
+    /// numeric setters: 0 raw file mode (i32), 1 epoch, 2 scriptlet flag bits, 3 changelog time,
+    /// 4 source date, 5 file verify flag bits, 6 dependency flag bits via a raw mode of a dir
+    Num { field: u8, value: i64 },
 }
 
 const DEST_TOKENS: [&str; 5] = ["/", ".", "..", "a", "b"];
@@ -83,7 +86,7 @@ impl Property for C17 {
         C17
     }
     fn rule(&self) -> String {
-        format!("complete enumeration of all destination strings of up to 6 (quick) / 7 (thorough) tokens over {:?}, random destinations with other characters; capability strings: all token strings up to 3 tokens of the C19 alphabet; every compressor with levels {:?}; every metadata/file-option setter with arbitrary strings incl. interior NUL, empty and 64 KiB. Each case runs in a worker process (encoders may abort). Non-trivial = the argument is outside the documented/valid domain (must-be-error destination, rejected caps, out-of-range level, string with NUL or > 4 KiB); distinct by case hash.", DEST_TOKENS, LEVELS)
+        format!("complete enumeration of all destination strings of up to 6 (quick) / 7 (thorough) tokens over {:?}, random destinations with other characters; capability strings: all token strings up to 3 tokens of the C19 alphabet; every compressor with levels {:?}; every metadata/file-option setter with arbitrary strings incl. interior NUL, empty and 64 KiB; numeric setters (raw file mode as i32, epoch, scriptlet flags, changelog time, source date, verify flags) with arbitrary integers. Each case runs in a worker process (encoders may abort). Non-trivial = the argument is outside the documented/valid domain (must-be-error destination, rejected caps, out-of-range level, string with NUL or > 4 KiB); distinct by case hash.", DEST_TOKENS, LEVELS)
     }
     fn assumptions(&self) -> Vec<String> {
         vec![
@@ -92,7 +95,7 @@ impl Property for C17 {
         ]
     }
     fn required_labels(&self, _t: Tier) -> Vec<&'static str> {
-        vec!["dest-must-err", "dest-ok", "caps-reject", "caps-accept", "level-in-range", "level-out-of-range", "meta-nul", "build-ok", "build-err-or-with-file-err"]
+        vec!["numeric-setter", "dest-must-err", "dest-ok", "caps-reject", "caps-accept", "level-in-range", "level-out-of-range", "meta-nul", "build-ok", "build-err-or-with-file-err"]
     }
     fn phases(&self, tier: Tier) -> Vec<Phase<C17Case>> {
         let maxlen = tier.pick(6, 7) as u32;
@@ -111,6 +114,15 @@ impl Property for C17 {
                 name: "random-destinations",
                 cases: tier.pick(20_000, 400_000),
                 strat: Arc::new(|| prop_oneof![3 => "(\\./|/|\\.\\./|[a-z]/)?([a-z.é ]{0,4}/){0,4}[a-z.é ]{0,4}/?", 1 => any::<String>(), 1 => "[/.]{0,8}"].prop_map(C17Case::Dest).boxed()),
+            },
+            Phase::Random {
+                name: "numeric-setters",
+                cases: tier.pick(6_000, 120_000),
+                strat: Arc::new(|| {
+                    (0u8..6, prop_oneof![3 => any::<u32>().prop_map(|v| v as i64), 2 => any::<i32>().prop_map(|v| v as i64), 3 => 0i64..0o200000, 1 => proptest::sample::select(vec![0i64, -1, 1, 0o100644, 0o040755, 0o120777, 0o010644, 0o060000, 65535, 65536, -32768, -32769, u32::MAX as i64, i32::MIN as i64])])
+                        .prop_map(|(field, value)| C17Case::Num { field, value })
+                        .boxed()
+                }),
             },
             Phase::Random {
                 name: "setter-strings",
@@ -220,6 +232,34 @@ fn inner(case: &C17Case, o: &mut Outcome) -> Result<(), (String, String)> {
                 }
                 o.label(if r == "build-ok" { "build-ok" } else { "build-err-or-with-file-err" });
                 Ok(())
+            })
+        }
+        C17Case::Num { field, value } => {
+            o.label("numeric-setter");
+            o.nontrivial_key(fnv1a(format!("{field}/{value}").as_bytes()));
+            let v = *value;
+            with_one_file(|src| {
+                let r = panics::catch(|| -> Result<rpm::PackageBuilder, rpm::Error> {
+                    let mut b = base();
+                    let mut fo = rpm::FileOptions::new("/f");
+                    match field {
+                        0 => fo = fo.mode(v as i32),
+                        1 => b = b.epoch(v as u32),
+                        2 => b = b.pre_install_script(rpm::Scriptlet::new("true").flags(rpm::ScriptletFlags::from_bits_retain(v as u32))),
+                        3 => b = b.add_changelog_entry("a", "b", v as u32),
+                        4 => b = b.source_date(v as u32),
+                        _ => fo = fo.verify(rpm::FileVerifyFlags::from_bits_retain(v as u32)),
+                    }
+                    b.with_file(src, fo)
+                });
+                match r {
+                    Err(pn) => Err(("panic".into(), format!("numeric setter #{field} with {v}: {pn}"))),
+                    Ok(Err(_)) => Ok(()),
+                    Ok(Ok(b)) => {
+                        o.label(build_and_readback(b, &format!("numeric setter #{field} = {v}"), 1)?);
+                        Ok(())
+                    }
+                }
             })
         }
         C17Case::Meta { field, value } => {
